@@ -36,6 +36,10 @@ class Granularity(Exception):
         self.param, self.need = param, need
 
 
+class OutOfBound(Exception):
+    """the current path leaves a stated bound of the encoding: explore() drops the path and records the bound as an assumption"""
+
+
 class PathLimit(Exception):
     pass
 
@@ -660,13 +664,24 @@ class SymC:
         # periodic-% rule: m must be a common period of every atom the value can reach
         m = float(m)
         fr = a.aff[0]
+        periodic = m > 0
         for name, q in fr.lin.items():
             period_atoms = 2 * PI * a.S.Dof(name) / abs(float(q))
             k = m / period_atoms
             if abs(k - round(k)) > 1e-9 or round(k) < 1:
-                raise Unsupported(f"% {m} is not a period of the atoms of {name} (D={a.S.Dof(name)})")
-        r = SymC(a.S, a.p, a.aff, modp=m)
-        return r
+                periodic = False
+        if periodic:
+            return SymC(a.S, a.p, a.aff, modp=m)
+        if not m > 0:
+            raise Unsupported("% with non-positive modulus on a symbolic value")
+        # generic case: x % m == x - k*m on the branch k*m <= x < (k+1)*m.  The path forks over k in -2..2 (solver-decided); the last
+        # candidate is assumed, which restricts the claim on such paths to -2m <= x < 3m (recorded in S.assumed).
+        S = a.S
+        for k in (0, -1, 1, -2, 2):
+            lo = a - k * m
+            if bool(lo >= 0) and bool(lo < m):
+                return lo
+        raise OutOfBound("argument x of a symbolic `x % m` assumed within [-2m, 3m)")
 
     def __rmod__(a, b):
         raise Unsupported("% with symbolic modulus")
@@ -1610,19 +1625,26 @@ def explore(build, D=None, default_D=2, abstract=False, max_paths=32, max_refine
     for _ in range(max_refine):
         try:
             results = []
+            dropped = []
             pending = [[]]
             npaths = 0
             while pending:
                 prefix = pending.pop()
                 S = session(D=D, default_D=default_D, abstract=abstract)
                 S.prefix = prefix
-                val = build(S)
-                results.append((S, val))
+                try:
+                    val = build(S)
+                    results.append((S, val))
+                except OutOfBound as e:
+                    if str(e) not in dropped:
+                        dropped.append(str(e))
                 npaths += 1
                 for pfx in S.pending:
                     pending.append(pfx)
                 if npaths >= max_paths and pending:
                     raise PathLimit(f"more than {max_paths} paths")
+            for S, _ in results:
+                S.assumed.extend(d for d in dropped if d not in S.assumed)
             return results
         except Granularity as g:
             D[g.param] = _lcm(D.get(g.param, default_D), g.need)
